@@ -625,7 +625,7 @@ runLoop:
 			queue := c.undecryptablePacketsToProcess
 			c.undecryptablePacketsToProcess = nil
 			for _, p := range queue {
-				processed, err := c.handleOnePacket(p.receivedPacket, p.datagramID)
+				processed, err := c.handleCountedPacket(p.receivedPacket, p.datagramID)
 				if err != nil {
 					c.setCloseError(&closeError{err: err})
 					break runLoop
@@ -1055,7 +1055,14 @@ func (c *Conn) handlePackets() (wasProcessed bool, _ error) {
 
 func (c *Conn) handleOnePacket(rp receivedPacket, datagramID qlog.DatagramID) (wasProcessed bool, _ error) {
 	c.sentPacketHandler.ReceivedBytes(rp.Size(), rp.rcvTime)
+	return c.handleCountedPacket(rp, datagramID)
+}
 
+// handleCountedPacket handles a packet whose bytes were already reported to the
+// sentPacketHandler. Packets that could not be decrypted when they arrived are fed through
+// here again once new keys are available: counting them a second time would grant an
+// unvalidated peer amplification credit for bytes it never sent.
+func (c *Conn) handleCountedPacket(rp receivedPacket, datagramID qlog.DatagramID) (wasProcessed bool, _ error) {
 	if wire.IsVersionNegotiationPacket(rp.data) {
 		return false, c.handleVersionNegotiationPacket(rp)
 	}
